@@ -117,7 +117,7 @@ for cfg in CONFIGS + QCONFIGS:
         total = BASE[cfg][2]
         for lo in range(0, total + 1, SH):
             hi = min(lo + SH, total + 1)
-            quick = len(cfg) == 3 and ((api == 'operate' and (cfg[0] == 0 or (lo // SH) % 2 == 1)) or (api == 'process' and cfg[:2] == (1, 0) and lo in (24, 72)))
+            quick = len(cfg) == 3 and ((api == 'operate' and (lo // SH) % 2 == (0 if cfg[0] == 0 else 1)) or (api == 'process' and cfg[:2] == (1, 0) and lo in (24, 72)))
             define(globals(), 'C13', 'reply_cut_%sdepth%d_multiple%d_%s_%03d' % ('short_' if len(cfg) == 3 else '', cfg[0], cfg[1], api, lo), ['cut'],
                    "return do_reply_cut(%r, cut, %r, %d, %d)" % (cfg, api, lo, hi), ['0 <= cut < %d' % (hi - lo)],
                    tier='quick' if quick else 'thorough', timeout=3000, path_timeout=600, drives=DRIVES, stubs=STUBS,
